@@ -53,7 +53,8 @@ def run(run, env, prop, binpath=None, extra_env=None, key_prefix="model-vs-impl"
     for p in stats.get("panic_list") or []:
         run.violation("panic", "implementation panicked: " + p, dict(panic=p))
     for d in stats.get("direct_violations") or []:
-        run.violation("receipt-mismatch", "a receipt's ran / issuer is not the invocation / the server: %s" % (d,), d)
+        run.violation("direct:" + d.get("what", "receipt ran/issuer mismatch")[:60],
+                      "%s: %s" % (d.get("what", "a receipt's ran / issuer is not the invocation / the server"), d), d)
     if not env["props_ok"] or not env["coq_ok"]:
         run.violation("proof-broken", "Coq development or Properties_%s.v no longer checks" % prop, dict(log=env["props_log"][-1500:]), no_input=True)
     return stats
